@@ -103,7 +103,11 @@ impl Point {
             } else {
                 y_q = 1
             }
-            let x = fp_to_mont(&U256::from_byte_be(&b[1..]));
+            let x = U256::from_byte_be(&b[1..]);
+            if crate::u256::u256_cmp(&x, &SM2_P) >= 0 {
+                return Err(Sm2Error::InvalidPublic);
+            }
+            let x = fp_to_mont(&x);
             let xxx = x.fp_mul(&x).fp_mul(&x);
             let ax = x.fp_mul(&crate::fields::fp64::SM2_MODP_MONT_A);
             let yy = xxx
@@ -126,8 +130,13 @@ impl Point {
             if b.len() != 65 {
                 return Err(Sm2Error::InvalidPublic);
             }
-            let x = fp_to_mont(&u256_from_be_bytes(&b[1..33]));
-            let y = fp_to_mont(&u256_from_be_bytes(&b[33..65]));
+            let x = u256_from_be_bytes(&b[1..33]);
+            let y = u256_from_be_bytes(&b[33..65]);
+            if crate::u256::u256_cmp(&x, &SM2_P) >= 0 || crate::u256::u256_cmp(&y, &SM2_P) >= 0 {
+                return Err(Sm2Error::InvalidPublic);
+            }
+            let x = fp_to_mont(&x);
+            let y = fp_to_mont(&y);
             Ok(Point {
                 x,
                 y,
